@@ -79,7 +79,7 @@ theorem ok_canonical {lo : Nat} {ps qs : Segs} (hp : Ok lo ps) (hq : Ok lo qs)
         rw [abs_cons, abs_cons, if_neg (by omega), if_neg (by omega)] at hk
         exact hk
 
-theorem minv_canonical {ps qs : Segs} (hp : MInv ps) (hq : MInv qs) (h : abs ps = abs qs) : ps = qs :=
+theorem minv_canonical_aux {ps qs : Segs} (hp : MInv ps) (hq : MInv qs) (h : abs ps = abs qs) : ps = qs :=
   ok_canonical (lo := 0) hp hq (fun k => congrFun h k)
 
 example : MInv [(1, [1, 2, 3]), (7, [4])] := by
